@@ -11,7 +11,8 @@ LEVEL = ("Mechanism level: (1) zero-expected census — no call to a clock, rand
          "in what the property allows (byte order of encoded maps, the SET of next peers), or a first-error selection, which "
          "makes the error MESSAGE depend on the per-process hash seed when the input has several independent faults — those "
          "are reproduced known findings; (3) JSON objects are BTreeMap-backed so value serialisation is order free. "
-         "Determinism inside third-party crates is not decided.")
+         "Determinism inside third-party crates is not decided."
+         " Added: no loop of a hash-iterating function carries an order-dependent scalar out of the loop; positive controls analysed by the same driver.")
 
 ND_SOURCES = ("std::time::SystemTime::now", "std::time::Instant::now", "std::env::var", "std::env::vars", "std::env::args", "std::env::var_os", "std::env::current_dir",
               "std::thread::spawn", "std::process::id", "std::thread::current", "rand::", "getrandom::", "fastrand::", "std::collections::hash::map::RandomState::new",
